@@ -131,12 +131,14 @@ pub fn c12q_hook_every_count_list_vec_box() {
 	let bytes: [u8; 5] = kani::any();
 	let cnt = compact_decode(&bytes[..], 32);
 	let (seen_l, _) = first_announcement::<LinkedList<u32>>(&bytes[..]);
+	let (seen_lw, _) = first_announcement::<LinkedList<[u64; 5]>>(&bytes[..]);
 	let (seen_v, d_v) = first_announcement::<Vec<Option<u16>>>(&bytes[..]);
 	let (seen_p, d_p) = first_announcement::<Vec<u64>>(&bytes[..]);
 	match cnt {
 		Some((n, _)) => {
 			let n = n as usize;
 			assert!(seen_l.unwrap() >= n * core::mem::size_of::<(usize, usize, u32)>(), "list announcement below count x node payload");
+			assert!(seen_lw.unwrap() >= n.saturating_mul(core::mem::size_of::<[u64; 5]>()), "list of wide elements: announcement below count x element size");
 			let sz = core::mem::size_of::<Option<u16>>();
 			let chunk = if n < 16384 / sz { n } else { 16384 / sz };
 			if n == 0 { assert!(seen_v.is_none()); } else { assert!(seen_v == Some(chunk * sz) && d_v == 1, "first Vec chunk announcement is not min(count, chunk) x element size"); }
@@ -144,7 +146,7 @@ pub fn c12q_hook_every_count_list_vec_box() {
 			// unknown-length input: the primitive path announces its first chunk as well
 			if n == 0 { assert!(seen_p.is_none()); } else { assert!(seen_p == Some(chunk8 * 8) && d_p == 0, "first Vec<u64> chunk announcement wrong / primitive vectors must not descend"); }
 		},
-		None => assert!(seen_l.is_none() && seen_v.is_none() && seen_p.is_none()),
+		None => assert!(seen_l.is_none() && seen_lw.is_none() && seen_v.is_none() && seen_p.is_none()),
 	}
 	let (seen_b, d_b) = first_announcement::<Box<[u32; 3]>>(&bytes[..]);
 	assert!(seen_b == Some(12) && d_b == 1, "Box announces size_of::<T>() after descending once");
